@@ -31,7 +31,7 @@ def hadamard_reverse_qft_circ(n_qubits: int):
         n_qubits -= 1
         qft.h(n_qubits)
         for i in range(n_qubits):
-            qft.cp(np.pi/2**(n_qubits - i), i, n_qubits)
+            qft.cp(np.pi/2**int(n_qubits - i), i, n_qubits)  # Python int: a NumPy integer count overflows from 2**31 (2**63) on
         qft_rotations(circ, n_qubits)
 
     qft_rotations(qft, n_qubits)
@@ -91,7 +91,7 @@ def qft_circ(n_qubits: int):
         n_qubits -= 1
         qft.h(n_qubits)
         for i in range(n_qubits):
-            qft.cp(np.pi/2**(n_qubits - i), i, n_qubits)
+            qft.cp(np.pi/2**int(n_qubits - i), i, n_qubits)  # Python int: a NumPy integer count overflows from 2**31 (2**63) on
 
         qft_rotations(circ, n_qubits)
 
